@@ -291,20 +291,25 @@ Definition stor_script (reply_after_ctx : bool) (ctx : list string) (m : mode) (
   ++ (if reply_after_ctx then exit_steps ctx ++ [SReply] else SReply :: exit_steps ctx).
 
 (* ------------------------------------------------------------------------------------------ *)
-(* the restart offset across commands (dispatcher: `if cmd not in EXEMPT: restart_offset = 0`,
-   executed when the command is dispatched, before its handler runs; rest(): offset := int(arg)) *)
+(* the restart offset across commands (dispatcher: for a verb of the table,
+   `if cmd not in EXEMPT: restart_offset = 0`, executed when the command is dispatched, before its
+   handler runs; a verb missing from the table only gets a 502; rest(): offset := int(arg)) *)
 Inductive cmdk : Type :=
 | CRest (n : nat)
 | CVerb (v : string).
 
-Definition disp_step (exempt : list string) (off : nat) (c : cmdk) : nat :=
+Definition disp_step (table : list (string * string)) (exempt : list string) (off : nat) (c : cmdk) : nat :=
   match c with
-  | CRest n => n
-  | CVerb v => if mem_s v exempt then off else O
+  | CRest n => match assoc_s "rest" table with Some _ => n | None => off end
+  | CVerb v =>
+      match assoc_s v table with
+      | None => off                 (* verb not in the table: "502 not implemented", nothing else happens *)
+      | Some _ => if mem_s v exempt then off else O
+      end
   end.
 
-Definition offset_after (exempt : list string) (hist : list cmdk) (off : nat) : nat :=
-  fold_left (disp_step exempt) hist off.
+Definition offset_after (table : list (string * string)) (exempt : list string) (hist : list cmdk) (off : nat) : nat :=
+  fold_left (disp_step table exempt) hist off.
 
 (* what Client.get_stream sends before the data flows: TYPE I, the passive command, REST o when
    o is non-zero, the transfer verb *)
@@ -466,7 +471,8 @@ Definition run_bytes (fn : Z) (a : sx) : sx :=
       | None => sx_err 2
       end
   | 9%Z => (* offset_after exempt=[retr;stor;appe] hist *)
-      sx_of_nat (offset_after ["retr"; "stor"; "appe"]%string (map cmdk_of_sx (list_of_sx (nth_sx 0 a))) O)
+      sx_of_nat (offset_after (map (fun v => (v, v)) ["type"; "pasv"; "epsv"; "stor"; "appe"; "retr"; "rest"]%string)
+                              ["retr"; "stor"; "appe"]%string (map cmdk_of_sx (list_of_sx (nth_sx 0 a))) O)
   | 10%Z => (* upload(): local cblock coracle -> wire ; download(): reads -> file *)
       sx_of_bytes (client_upload_wire (bytes_of_sx (nth_sx 0 a)) (nat_of_sx (nth_sx 1 a)) (nats_of_sx (nth_sx 2 a)))
   | 11%Z =>
